@@ -36,7 +36,7 @@ type dim struct {
 var dims = []dim{
 	{"process", []string{"nil", "root-env", "uid1000-gid2000-env", "uid1000-gid0", "uid0-gid2000", "gids-5-7"}},
 	{"linux", []string{"nil", "empty", "devices+rules", "devices+rules+rdt"}},
-	{"mounts", []string{"nil", "unsorted-existing"}},
+	{"mounts", []string{"nil", "unsorted-existing", "many-equal-depth", "many-mixed-depth"}},
 	{"hooks", []string{"nil", "existing"}},
 	{"env", []string{"none", "new", "override", "repeated", "override+repeated+new"}},
 	{"devnodes", []string{"none", "char-unspecified", "char-specified", "block-unspecified", "fifo-unspecified", "fifo-specified", "block-type-only",
@@ -94,6 +94,20 @@ func buildOCI(c Case) *oci.Spec {
 			{Destination: "/x//y/", Source: "/nonclean"},
 			{Destination: "/sys", Source: "sysfs", Type: "sysfs"},
 		}
+	}
+	switch c.opt(2) {
+	case "many-equal-depth":
+		// more mounts than any small-slice special case of a sorting routine: 16 at the same depth
+		for i := 0; i < 16; i++ {
+			s.Mounts = append(s.Mounts, oci.Mount{Destination: fmt.Sprintf("/run/m%02d", (i*7)%16), Source: fmt.Sprintf("/src/%d", i)})
+		}
+		s.Mounts = append(s.Mounts, oci.Mount{Destination: "/existing/dest", Source: "/old"})
+	case "many-mixed-depth":
+		for i := 0; i < 40; i++ {
+			d := "/k" + strings.Repeat(fmt.Sprintf("/p%d", i%5), i%4)
+			s.Mounts = append(s.Mounts, oci.Mount{Destination: fmt.Sprintf("%s/n%02d", d, (i*11)%40), Source: fmt.Sprintf("/src/%d", i)})
+		}
+		s.Mounts = append(s.Mounts, oci.Mount{Destination: "/existing/dest", Source: "/old"})
 	}
 	if c.opt(3) == "existing" {
 		s.Hooks = &oci.Hooks{Prestart: []oci.Hook{{Path: "/old/prestart", Args: []string{"a"}}}, CreateRuntime: []oci.Hook{{Path: "/old/cr"}},
